@@ -1032,7 +1032,8 @@ class Cap(object):
                         r.slen = None
 
     def forget_cells(self, st, rid=None):
-        for kx in [kx for kx in st.heap if isinstance(kx, tuple) and kx and kx[0] == "cell" and (rid is None or kx[1] == rid)]:
+        for kx in [kx for kx in st.heap if isinstance(kx, tuple) and kx and kx[0] == "cell" and
+                   (rid is None or kx[1] == rid or (isinstance(kx[1], str) and kx[1].startswith("pure:")))]:
             del st.heap[kx]
 
     def clobber(self, st, dst, nbytes):
@@ -1211,7 +1212,14 @@ class Cap(object):
                 return [(st, UNK)]
             # searching for NUL finds the terminator
             incl = 1 if cn in ("strchr", "strrchr", "__builtin_strchr", "index", "rindex") and not (A[1][0] == "i" and A[1][1].is_const() and A[1][1].c != 0) else 0
-            return self.found_or_null(st, A[0], ln + incl, n, never_null=(incl == 1 and A[1][0] == "i" and A[1][1].is_const() and A[1][1].c == 0))
+            # a pure search repeated on the same arguments (no write in between) gives the same answer
+            mk = ("cell", "pure:" + cn, tuple(A))
+            if mk in st.heap:
+                return [(st, st.heap[mk])]
+            outs = self.found_or_null(st, A[0], ln + incl, n, never_null=(incl == 1 and A[1][0] == "i" and A[1][1].is_const() and A[1][1].c == 0))
+            for s_, v_ in outs:
+                s_.heap[mk] = v_
+            return outs
         if cn in ("snprintf", "vsnprintf", "__builtin___snprintf_chk", "__builtin___vsnprintf_chk"):
             if iv(1) is not None:
                 self.oblige(st, "count", n, iv(1), "negative size passed to %s" % cn)
@@ -1482,12 +1490,26 @@ class Cap(object):
                 for rid, r in st.regions.items():
                     base.regions.setdefault(rid, r)
             base.cons = [c for c in g[0].cons if c in common]
+            # bounds every merged state agrees on (against 0 and the string length / terminator / capacity of live regions)
+            refs = [Lin.const(0)]
+            for rg in base.regions.values():
+                for t_ in (rg.slen, rg.nul, rg.cap):
+                    if t_ is not None and t_ not in refs and len(refs) < 10:
+                        refs.append(t_)
+
+            def carry(x, getter):
+                for t_ in refs:
+                    if all(getter(st) is not None and entails(st.cons, getter(st) - t_) for st in g):
+                        base.cons.append(Lin.sym(x) - t_)
+                    if all(getter(st) is not None and entails(st.cons, t_ - getter(st)) for st in g):
+                        base.cons.append(t_ - Lin.sym(x))
             for d in list(base.env):
                 v = base.env[d]
                 if v[0] == "i" and any(st.env.get(d) != v for st in g[1:]):
                     x = fresh("mg")
                     base.env[d] = I(Lin.sym(x))
                     base.imprecise.add(x)
+                    carry(x, lambda st, d=d: st.env[d][1] if st.env.get(d) is not None and st.env[d][0] == "i" else None)
             for kx in list(base.heap):
                 v = base.heap[kx]
                 if isinstance(v, tuple) and v and v[0] == "i" and any(st.heap.get(kx) != v for st in g[1:]):
@@ -1505,7 +1527,7 @@ class Cap(object):
     def exec(self, n, st):
         """-> {'norm': [...], 'brk': [...], 'cont': [...], 'ret': [...]}"""
         self.nstates += 1
-        if self.nstates > 60000:
+        if self.nstates > 150000:
             raise TooManyStates()
         k = n.get("k")
         out = {"norm": [], "brk": [], "cont": [], "ret": []}
@@ -1731,6 +1753,25 @@ class Cap(object):
             a, b = self.modified_in(p)
             locs |= a
             fields |= b
+        # pointer locals that are only moved relative to themselves inside the loop stay in their region
+        self_rel = {}
+        for p_ in parts:
+            for x in walk(p_):
+                if x.get("k") == "assign":
+                    t = X.strip(x["ch"][0])
+                    if t.get("k") == "ref" and t.get("tp"):
+                        ok_ = x.get("op") in ("+=", "-=")
+                        if x.get("op") == "=":
+                            r_ = X.strip(x["ch"][1])
+                            while r_ is not None and r_.get("k") == "bin" and r_.get("op") in ("+", "-") and r_.get("tp"):
+                                r_ = X.strip(r_["ch"][0])
+                            ok_ = r_ is not None and r_.get("k") == "ref" and r_.get("d") == t["d"]
+                        self_rel[t["d"]] = self_rel.get(t["d"], True) and ok_
+                if x.get("k") == "decl":
+                    for d_ in x.get("decls", ()):
+                        if d_.get("tp"):
+                            self_rel[d_["d"]] = False
+
         # havoc
         def havoc(base):
             h = base.copy()
@@ -1744,11 +1785,13 @@ class Cap(object):
                     h.env[d] = I(Lin.sym(x))
                     h.imprecise.add(x)
                     sub[d] = ("i", x, v[1])
-                elif v[0] == "p":
+                elif v[0] == "p" and self_rel.get(d, True):
                     x = fresh("lo")
                     h.env[d] = P(v[1], Lin.sym(x))
                     h.imprecise.add(x)
                     sub[d] = ("p", x, v[2], v[1])
+                elif v[0] == "p":
+                    h.env[d] = UNK        # re-pointed inside the loop (realloc, new buffer): nothing is known
                 elif v[0] == "n":
                     h.env[d] = UNK
                 elif v[0] == "uninit":
@@ -1789,6 +1832,43 @@ class Cap(object):
                         cands.append(("off<=cap", r.cap - x))
             else:
                 cands.append(("nonneg", x)) if entails(pre.cons, e0) else None
+        # integer variables used as indices into a buffer: bounded by its string length / terminator / capacity
+        for part in ("cond", "body", "inc"):
+            if n.get(part) is None:
+                continue
+            for x in walk(n[part]):
+                if x.get("k") != "index":
+                    continue
+                ix = X.strip(x["ch"][1])
+                off_c = 0
+                if ix.get("k") == "bin" and ix.get("op") in ("+", "-") and X.const_val(ix["ch"][1]) is not None:
+                    ix = X.strip(ix["ch"][0])
+                if ix.get("k") == "un" and ix.get("op") in ("++", "--"):
+                    ix = X.strip(ix["ch"][0])
+                if ix.get("k") != "ref" or ix.get("d") not in sub or sub[ix["d"]][0] != "i":
+                    continue
+                bx = X.strip(x["ch"][0])
+                if bx.get("k") != "ref" or bx.get("d") in sub:
+                    continue
+                bv = pre.env.get(bx["d"])
+                if bv is None or bv[0] != "p":
+                    continue
+                r = pre.regions.get(bv[1])
+                if r is None:
+                    continue
+                es = (x.get("tw") or 8) // 8 if not x.get("tp") else 8
+                xv = Lin.sym(sub[ix["d"]][1]).scale(es) + bv[2]
+                cands.append(("idx>=0", xv))
+                if r.slen is not None:
+                    cands.append(("idx<=slen", r.slen - xv))
+                if r.nul is not None:
+                    cands.append(("idx<=nul", r.nul - xv))
+                if r.cap is not None:
+                    cands.append(("idx<=cap", r.cap - xv))
+                    cands.append(("idx<cap", r.cap - xv - es))
+        # de-duplicate
+        seen_c = set()
+        cands = [c for c in cands if c is not None and not (c[1] in seen_c or seen_c.add(c[1]))]
         # lock-step pairs
         keys = list(sub.items())
         for i in range(len(keys)):
@@ -1988,6 +2068,7 @@ class Cap(object):
         self.nstates = 0
         rets = []
         for st in entry_states:
+            self.nstates = 0
             try:
                 o = self.exec(fn.body, st)
             except TooManyStates:
